@@ -23,7 +23,7 @@ OPS = {
     "union": dict(enum="prefix_trie::trieview::union::UnionIndex", names=dict(both="Both", fl="FirstL", fr="FirstR", ol="OnlyL", orr="OnlyR"),
                   iters={"<Union as Iterator>::next": dict(mut=False, lpm="lr"), "<UnionMut as Iterator>::next": dict(mut=True, lpm="")},
                   ctors={"TrieView::union": dict(lpm="lr"), "TrieViewMut::union_mut": dict(lpm="")}),
-    "intersection": dict(enum="prefix_trie::trieview::intersection::IntersectionIndex", names=dict(both="Both", fl="FirstA", fr="FirstB", ol=None, orr=None),
+    "intersection": dict(enum="prefix_trie::trieview::intersection::IntersectionIndex", names=dict(both="Both", fl="FirstL", fr="FirstR", ol=None, orr=None),
                          iters={"<Intersection as Iterator>::next": dict(mut=False, lpm=""), "<IntersectionMut as Iterator>::next": dict(mut=True, lpm="")},
                          ctors={"TrieView::intersection": dict(lpm=""), "TrieViewMut::intersection_mut": dict(lpm="")}),
     "difference": dict(enum="prefix_trie::trieview::difference::DifferenceIndex", names=dict(both="Both", fl="FirstL", fr="FirstR", ol="OnlyL", orr=None),
@@ -34,6 +34,81 @@ OPS = {
                      ctors={"TrieView::covering_difference": dict(lpm=""), "TrieViewMut::covering_difference_mut": dict(lpm="")}),
 }
 KINDS = ("both", "fl", "fr", "ol", "orr")
+CANON_VARIANT = dict(both="Both", fl="FirstL", fr="FirstR", ol="OnlyL", orr="OnlyR")
+
+
+def discover(F):
+    """Role of every variant of the stack-entry enums, from what one `next()` does with it (see pt/canon.py): returns
+    ({(enum path, variant name): canonical name}, {op: enum path}).  Field names are already canonical (table_l / table_r / nodes)."""
+    import re as _re
+    from .. import canon
+    ren, enums = {}, {}
+    done = {}
+    for op, spec in OPS.items():
+        it_short = next((k for k in spec["iters"] if k in F.short), None)
+        if it_short is None:
+            continue
+        f = F.fns[F.short[it_short]]
+        it_adt = F.adt_of(f["impl_self_ty"]) if f.get("impl") else None
+        enum = canon.stack_enum_of(F.raw, it_adt)
+        if enum is None:
+            continue
+        enums[op] = enum
+        if enum in done:
+            continue
+        roles = {}
+        for v in F.adts[enum]["variants"]:
+            nf = len(v["fields"])
+            if nf not in (1, 2):
+                continue
+            lpm = spec["iters"][it_short]["lpm"]
+
+            def prog(it, v=v, nf=nf, lpm=lpm, it_short=it_short, enum=enum):
+                npath = F.short[it_short]
+                params = C.fn_params(F, npath)
+                selfv = absint.unknown(it, params[0][1], "self")
+                st = it.force(selfv.cell)
+                fields = {"0": Cell(SymV("i0"), "0")}
+                if nf == 2:
+                    fields["1"] = Cell(SymV("i1"), "1")
+                idx = StructV(enum, v["name"], fields)
+                vty = F.types[[x for x in F.adts[st.adt]["variants"][0]["fields"] if x["name"] == "nodes"][0]["ty"]]
+                elem = F.types[vty["a"][0]]
+                if elem["t"] == "tuple":
+                    item = TupleV([Cell(idx, "0")] + [Cell(UnkV(t_, "inh%d" % k_), str(k_ + 1)) for k_, t_ in enumerate(elem["a"][1:])])
+                else:
+                    item = idx
+                st.fields["nodes"].value = VecV(VecObj("self.nodes", [item], None))
+                return it.run_fn(npath, [selfv])
+            read = set()
+            try:
+                for p in absint.explore(F, None, None, {"loop_bound": 1}, max_paths=120, program=prog):
+                    for k, _ in p.inputs:
+                        m = _re.match(r"opt:self\.table_([lr])\[(i[01])\]\.(left|right)$", k)
+                        if m:
+                            read.add((m.group(1), m.group(2)))
+            except Exception:
+                read = set()
+            sides = {a for a, _ in read}
+            if nf == 2:
+                role = "both" if sides == {"l", "r"} else "fl" if sides == {"l"} else "fr" if sides == {"r"} else None
+                if role and {(a, i) for a, i in read} - {("l", "i0"), ("r", "i1")}:
+                    role = None      # the first index must address the left table, the second the right one
+            else:
+                role = "ol" if sides == {"l"} else "orr" if sides == {"r"} else None
+            if role:
+                roles.setdefault(role, []).append(v["name"])
+        done[enum] = roles
+        if all(len(vs) == 1 for vs in roles.values()) and sum(len(vs) for vs in roles.values()) == len(F.adts[enum]["variants"]):
+            for role, (name,) in roles.items():
+                if name != CANON_VARIANT[role]:
+                    ren[(enum, name)] = CANON_VARIANT[role]
+    return ren, enums
+
+
+def bind_enums(enums):
+    for op, e in enums.items():
+        OPS[op]["enum"] = e
 
 
 # ---------------------------------------------------------------- facts of one path
